@@ -545,10 +545,109 @@ fn same_commit(v: &Option<View>, truth: &Option<View>) -> bool {
 const READERS: [&str; 6] = ["list", "list_with_delimiter", "list_with_offset", "head", "get", "get_ranges"];
 const WRITERS: [&str; 4] = ["put", "copy", "multipart", "delete"];
 
+/// Read preconditions of a conditional reader, relative to the commit the key holds before the writer runs
+/// ("old") — which of the two commits satisfies it is decided by the reference store, not here.
+#[derive(Clone, Copy, Debug, PartialEq)]
+enum Pre { MatchOld, MatchBogus, MatchStar, NoneMatchOld, NoneMatchBogus, NoneMatchStar, UnmodOld, UnmodFuture, UnmodPast, ModOld, ModPast, ModFuture, MatchOldNoneMatchBogus, UnmodOldModPast }
+#[derive(Clone, Copy, Debug)]
+struct Cond { name: &'static str, pre: Pre, head: bool, range: bool }
+const CONDS: [Cond; 17] = [
+    Cond { name: "get_opts if_match=[other, token(old)]", pre: Pre::MatchOld, head: false, range: false },
+    Cond { name: "get_opts if_match=bogus", pre: Pre::MatchBogus, head: false, range: false },
+    Cond { name: "get_opts if_match=*", pre: Pre::MatchStar, head: false, range: false },
+    Cond { name: "get_opts if_none_match=token(old)", pre: Pre::NoneMatchOld, head: false, range: false },
+    Cond { name: "get_opts if_none_match=bogus", pre: Pre::NoneMatchBogus, head: false, range: false },
+    Cond { name: "get_opts if_none_match=*", pre: Pre::NoneMatchStar, head: false, range: false },
+    Cond { name: "get_opts if_unmodified_since=last_modified(old)", pre: Pre::UnmodOld, head: false, range: false },
+    Cond { name: "get_opts if_unmodified_since=future", pre: Pre::UnmodFuture, head: false, range: false },
+    Cond { name: "get_opts if_unmodified_since=past", pre: Pre::UnmodPast, head: false, range: false },
+    Cond { name: "get_opts if_modified_since=last_modified(old)", pre: Pre::ModOld, head: false, range: false },
+    Cond { name: "get_opts if_modified_since=past", pre: Pre::ModPast, head: false, range: false },
+    Cond { name: "get_opts if_modified_since=future", pre: Pre::ModFuture, head: false, range: false },
+    Cond { name: "get_opts if_match=token(old) if_none_match=bogus", pre: Pre::MatchOldNoneMatchBogus, head: false, range: false },
+    Cond { name: "get_opts if_unmodified_since=last_modified(old) if_modified_since=past", pre: Pre::UnmodOldModPast, head: false, range: false },
+    Cond { name: "get_opts head if_match=token(old)", pre: Pre::MatchOld, head: true, range: false },
+    Cond { name: "get_opts range=0..5 if_unmodified_since=last_modified(old)", pre: Pre::UnmodOld, head: false, range: true },
+    Cond { name: "get_opts range=0..5 if_none_match=token(old)", pre: Pre::NoneMatchOld, head: false, range: true },
+];
+
+fn reader_name(reader: usize) -> String {
+    if reader < READERS.len() { READERS[reader].to_string() } else { CONDS[reader - READERS.len()].name.to_string() }
+}
+
+fn cond_options(c: &Cond, tok_old: &str, lm_old: chrono::DateTime<chrono::Utc>) -> GetOptions {
+    let day = chrono::Duration::days(1);
+    let mut o = GetOptions::default();
+    match c.pre {
+        Pre::MatchOld => o.if_match = Some(format!("other, {tok_old}")),
+        Pre::MatchBogus => o.if_match = Some("bogus".into()),
+        Pre::MatchStar => o.if_match = Some("*".into()),
+        Pre::NoneMatchOld => o.if_none_match = Some(tok_old.to_string()),
+        Pre::NoneMatchBogus => o.if_none_match = Some("bogus".into()),
+        Pre::NoneMatchStar => o.if_none_match = Some("*".into()),
+        Pre::UnmodOld => o.if_unmodified_since = Some(lm_old),
+        Pre::UnmodFuture => o.if_unmodified_since = Some(lm_old + day),
+        Pre::UnmodPast => o.if_unmodified_since = Some(lm_old - day),
+        Pre::ModOld => o.if_modified_since = Some(lm_old),
+        Pre::ModPast => o.if_modified_since = Some(lm_old - day),
+        Pre::ModFuture => o.if_modified_since = Some(lm_old + day),
+        Pre::MatchOldNoneMatchBogus => { o.if_match = Some(tok_old.to_string()); o.if_none_match = Some("bogus".into()); }
+        Pre::UnmodOldModPast => { o.if_unmodified_since = Some(lm_old); o.if_modified_since = Some(lm_old - day); }
+    }
+    if c.head { o.head = true; }
+    if c.range { o.range = Some(GetRange::Bounded(0..5)); }
+    o
+}
+
+/// What one conditional read answered: the bytes it served or the kind of its error.
+type Verdict = std::result::Result<Vec<u8>, &'static str>;
+
+async fn cond_read(os: &dyn ObjectStore, k: &Path, o: GetOptions) -> (Verdict, Option<View>) {
+    match os.get_opts(k, o).await {
+        Ok(r) => {
+            let m = r.meta.clone();
+            match r.bytes().await {
+                Ok(b) => (Ok(b.to_vec()), Some(View { size: m.size, etag: m.e_tag, lm: Some(m.last_modified), bytes: Some(b.to_vec()) })),
+                Err(e) => (Err(err_kind(&e)), None),
+            }
+        }
+        Err(e) => (Err(err_kind(&e)), None),
+    }
+}
+
+fn wait_past(t: chrono::DateTime<chrono::Utc>) {
+    // the next commit must carry a later timestamp than `t` at the wrappers' resolution (1 ms)
+    while chrono::Utc::now().timestamp_millis() <= t.timestamp_millis() {
+        std::thread::sleep(std::time::Duration::from_micros(100));
+    }
+}
+
+/// The reference: the same conditional read on object_store's InMemory before and after the same writer.
+async fn reference_verdicts(c: &Cond, writer: usize, v0: &[u8], v1: &[u8], other: &[u8]) -> (Verdict, Verdict) {
+    let r = InMemory::new();
+    let k = Path::from("k");
+    r.put(&k, Bytes::from(v0.to_vec()).into()).await.unwrap();
+    r.put(&Path::from("j"), Bytes::from(other.to_vec()).into()).await.unwrap();
+    let m = r.head(&k).await.unwrap();
+    let o = cond_options(c, m.e_tag.as_deref().unwrap_or(""), m.last_modified);
+    let before = cond_read(&r, &k, o.clone()).await.0;
+    wait_past(m.last_modified);
+    match writer {
+        0 | 2 => { r.put(&k, Bytes::from(v1.to_vec()).into()).await.unwrap(); }
+        1 => { r.copy(&Path::from("j"), &k).await.unwrap(); }
+        _ => { r.delete(&k).await.unwrap(); }
+    }
+    let after = cond_read(&r, &k, o).await.0;
+    (before, after)
+}
+
+#[derive(Clone, Copy, Debug)]
+enum Plan<'a> { Choices(&'a [usize]), Switch(usize, usize, usize) }
+
 /// One run: key "k" was committed by an earlier instance (cold cache here); a reader and a writer of
 /// "k" run through one wrapper instance under the given schedule; then everything the instance says about
 /// "k" must be the acknowledged latest commit (the view of a fresh instance over the same backend).
-async fn two_caller_run(kind: Kind, reader: usize, writer: usize, fail_cleanup: bool, post_writes: bool, choices: &[usize]) -> (Vec<usize>, Option<Value>) {
+async fn two_caller_run(kind: Kind, reader: usize, writer: usize, fail_cleanup: bool, post_writes: bool, plan: Plan<'_>) -> (Vec<usize>, (usize, usize), Option<Value>) {
     let mem = Arc::new(InMemory::new());
     let v0: Vec<u8> = (0..40u8).collect();
     let v1: Vec<u8> = (50..59u8).collect();
@@ -562,6 +661,11 @@ async fn two_caller_run(kind: Kind, reader: usize, writer: usize, fail_cleanup: 
         let pc = start(kind, mem.clone());
         views(pc.w.os(), "k").await[1].1.clone()
     };
+    let cond: Option<Cond> = if reader >= READERS.len() { Some(CONDS[reader - READERS.len()]) } else { None };
+    let (tok_old, lm_old) = match &old_view { Some(v) => (v.etag.clone().unwrap_or_default(), v.lm.unwrap_or_default()), None => (String::new(), Default::default()) };
+    if cond.is_some() {
+        wait_past(lm_old);
+    }
     let p = start(kind, mem.clone()); // cold metadata cache
     if fail_cleanup {
         // the best-effort reclaim of the replaced generation fails (it is left to collect_garbage)
@@ -592,6 +696,10 @@ async fn two_caller_run(kind: Kind, reader: usize, writer: usize, fail_cleanup: 
     let rtask = spawn_task(&sched, 0, async move {
         let os = w2.os();
         let k = Path::from("k");
+        if let Some(c) = cond {
+            let (verdict, view) = cond_read(os, &k, cond_options(&c, &tok_old, lm_old)).await;
+            return (view, Some(verdict));
+        }
         // what the reader saw of "k" (None = absent / error)
         let v: Option<View> = match reader {
             0 => os.list(None).try_collect::<Vec<ObjectMeta>>().await.ok().and_then(|l| l.into_iter().find(|m| m.location == k)).map(|m| View { size: m.size, etag: m.e_tag, lm: Some(m.last_modified), bytes: None }),
@@ -607,14 +715,21 @@ async fn two_caller_run(kind: Kind, reader: usize, writer: usize, fail_cleanup: 
             },
             _ => os.get_ranges(&k, &[0..5]).await.ok().map(|b| View { size: 0, etag: None, lm: None, bytes: Some(b[0].to_vec()) }),
         };
-        v
+        (v, None)
     });
-    let branching = match sched.drive(2, choices).await {
-        Ok(b) => b,
-        Err(e) => return (vec![], Some(json!({"class":"harness-nondeterminism","what":e}))),
+    let mut switched = (0usize, 0usize);
+    let branching = match plan {
+        Plan::Choices(choices) => match sched.drive(2, choices).await {
+            Ok(b) => b,
+            Err(e) => return (vec![], switched, Some(json!({"class":"harness-nondeterminism","what":e}))),
+        },
+        Plan::Switch(first, n1, n2) => match sched.drive_switch(first, n1, n2).await {
+            Ok(c) => { switched = c; vec![] }
+            Err(e) => return (vec![], switched, Some(json!({"class":"harness-nondeterminism","what":e}))),
+        },
     };
     let wres = wtask.await.unwrap();
-    let seen = rtask.await.unwrap();
+    let (seen, seen_verdict): (Option<View>, Option<Verdict>) = rtask.await.unwrap();
     *p.rec.sched.lock().unwrap() = None;
     let trace = sched.trace();
     // the truth: a fresh instance over the same backend
@@ -622,7 +737,7 @@ async fn two_caller_run(kind: Kind, reader: usize, writer: usize, fail_cleanup: 
     let truth_all = views(pc.w.os(), "k").await;
     let truth = truth_all[1].1.clone();
     let mut fail: Option<Value> = None;
-    let ctx = |what: &str, class: &str, d: Value| json!({"class":class,"what":what,"wrapper":kind.name(),"reader":READERS[reader],"writer":WRITERS[writer],
+    let ctx = |what: &str, class: &str, d: Value| json!({"class":class,"what":what,"wrapper":kind.name(),"reader":reader_name(reader),"writer":WRITERS[writer],
         "cleanup_of_replaced_generation_fails":fail_cleanup,"cold_cache":true,"schedule":trace.clone(),"detail":d,"writer_result":format!("{wres:?}")});
     if wres.is_err() {
         fail = Some(ctx("a writer fails when a reader of the same key runs concurrently", "two-caller", json!(null)));
@@ -657,8 +772,24 @@ async fn two_caller_run(kind: Kind, reader: usize, writer: usize, fail_cleanup: 
             }
         }
     }
-    // (b) what the concurrent reader saw is one whole commit: the old one or the new one
-    if reader <= 4 {
+    // (c) a conditional read is answered against ONE commit: its answer (error kind, or bytes + token + size +
+    //     timestamp) is what the reference gives for the same conditional read before the writer or after it
+    if let (Some(c), Some(verdict)) = (&cond, &seen_verdict) {
+        let (before, after) = reference_verdicts(c, writer, &v0, &v1, &other).await;
+        let is = |commit: &Option<View>, want: &Verdict| -> bool {
+            match (want, verdict, &seen, commit) {
+                (Ok(wb), Ok(gb), Some(sv), Some(cv)) => (c.head || wb == gb) && sv.size == cv.size && sv.etag == cv.etag && sv.lm == cv.lm,
+                (Err(we), Err(ge), _, _) => we == ge,
+                _ => false,
+            }
+        };
+        if !(is(&old_view, &before) || is(&truth, &after)) && fail.is_none() {
+            fail = Some(ctx("a conditional read concurrent with a commit of the same key returned an answer that the reference store gives neither before nor after that commit (its preconditions were not evaluated on the commit it served)",
+                "conditional-read-two-commits", json!({"options":format!("{:?}", cond_options(c, "token(old)", lm_old)),"answer":format!("{:?}", verdict.as_ref().map(|b| b.len())),"served":format!("{seen:?}"),
+                    "reference_before_the_writer":format!("{:?}", before.as_ref().map(|b| b.len())),"reference_after_the_writer":format!("{:?}", after.as_ref().map(|b| b.len())),
+                    "old_commit":format!("{old_view:?}"),"new_commit":format!("{truth:?}")})));
+        }
+    } else if reader <= 4 {
         if !(same_commit(&seen, &old_view) || same_commit(&seen, &truth) || seen.is_none()) && fail.is_none() {
             fail = Some(ctx("a concurrent reader saw a mixture of two commits", "two-caller", json!({"seen":format!("{seen:?}"),"old":format!("{old_view:?}"),"new":format!("{truth:?}")})));
         }
@@ -669,32 +800,59 @@ async fn two_caller_run(kind: Kind, reader: usize, writer: usize, fail_cleanup: 
             fail = Some(ctx("a concurrent get_ranges returned bytes of neither commit", "two-caller", json!({"bytes":b})));
         }
     }
-    (branching, fail)
+    (branching, switched, fail)
 }
 
-async fn two_callers(rng: &mut Rng, limit: usize, samples: usize, post_writes: bool, failures: &mut Vec<Value>, evaluations: &mut u64) -> (u64, u64, bool) {
+async fn two_callers(rng: &mut Rng, limit: usize, samples: usize, post_writes: bool, failures: &mut Vec<Value>, evaluations: &mut u64) -> (u64, u64, bool, u64) {
     let mut scenarios = 0u64;
     let mut runs = 0u64;
+    let mut bounded_runs = 0u64;
     let mut exhaustive = true;
     for kind in [Kind::Meta, Kind::Enc(16)] {
-        for reader in 0..READERS.len() {
+        for reader in 0..READERS.len() + CONDS.len() {
             for writer in 0..WRITERS.len() {
                 for fail_cleanup in [false, true] {
                     scenarios += 1;
-                    let mut choices: Vec<usize> = Vec::new();
-                    let mut n = 0usize;
                     let mut seen_fail = false;
-                    loop {
-                        let (branching, fail) = two_caller_run(kind, reader, writer, fail_cleanup, post_writes, &choices).await;
-                        runs += 1;
-                        n += 1;
-                        *evaluations += 1;
+                    let mut note = |fail: Option<Value>, failures: &mut Vec<Value>| {
                         if let Some(f) = fail {
                             if !seen_fail {
                                 failures.push(f);
                             }
                             seen_fail = true;
                         }
+                    };
+                    // context-bounded schedules: one caller runs n1 backend steps, the other n2 steps (or to its end),
+                    // then the first to its end: every schedule with at most one (quick) / two preemptions
+                    for first in [0usize, 1] {
+                        let mut n1 = 0usize;
+                        loop {
+                            let (_b, (c1, _), fail) = two_caller_run(kind, reader, writer, fail_cleanup, post_writes, Plan::Switch(first, n1, usize::MAX)).await;
+                            runs += 1; bounded_runs += 1; *evaluations += 1;
+                            note(fail, failures);
+                            if c1 < n1 || n1 > 200 { break; }
+                            if post_writes {
+                                let mut n2 = 1usize;
+                                loop {
+                                    let (_b, (_, c2), fail) = two_caller_run(kind, reader, writer, fail_cleanup, post_writes, Plan::Switch(first, n1, n2)).await;
+                                    runs += 1; bounded_runs += 1; *evaluations += 1;
+                                    note(fail, failures);
+                                    if c2 < n2 || n2 > 200 { break; }
+                                    n2 += 1;
+                                }
+                            }
+                            n1 += 1;
+                        }
+                    }
+                    // depth-first over the whole choice tree (bounded), then random schedules
+                    let mut choices: Vec<usize> = Vec::new();
+                    let mut n = 0usize;
+                    loop {
+                        let (branching, _, fail) = two_caller_run(kind, reader, writer, fail_cleanup, post_writes, Plan::Choices(&choices)).await;
+                        runs += 1;
+                        n += 1;
+                        *evaluations += 1;
+                        note(fail, failures);
                         if !next_choices(&mut choices, &branching) {
                             break;
                         }
@@ -702,15 +860,10 @@ async fn two_callers(rng: &mut Rng, limit: usize, samples: usize, post_writes: b
                             exhaustive = false;
                             for _ in 0..samples {
                                 let ch: Vec<usize> = (0..60).map(|_| rng.below(3) as usize).collect();
-                                let (_b, fail) = two_caller_run(kind, reader, writer, fail_cleanup, post_writes, &ch).await;
+                                let (_b, _, fail) = two_caller_run(kind, reader, writer, fail_cleanup, post_writes, Plan::Choices(&ch)).await;
                                 runs += 1;
                                 *evaluations += 1;
-                                if let Some(f) = fail {
-                                    if !seen_fail {
-                                        failures.push(f);
-                                    }
-                                    seen_fail = true;
-                                }
+                                note(fail, failures);
                             }
                             break;
                         }
@@ -719,7 +872,7 @@ async fn two_callers(rng: &mut Rng, limit: usize, samples: usize, post_writes: b
             }
         }
     }
-    (scenarios, runs, exhaustive)
+    (scenarios, runs, exhaustive, bounded_runs)
 }
 
 pub fn main(args: &[String]) {
@@ -1014,7 +1167,7 @@ async fn run(seqs: usize, out: &mut impl std::io::Write) {
         }
     }
 
-    let (tc_scenarios, tc_runs, tc_exhaustive) = two_callers(&mut rng, if seqs >= 1000 { 6000 } else { 150 }, if seqs >= 1000 { 300 } else { 60 }, seqs >= 1000, &mut failures, &mut evaluations).await;
+    let (tc_scenarios, tc_runs, tc_exhaustive, tc_bounded) = two_callers(&mut rng, if seqs >= 1000 { 2500 } else { 100 }, if seqs >= 1000 { 200 } else { 40 }, seqs >= 1000, &mut failures, &mut evaluations).await;
     let oracle_failures = failures.len();
     let mut per_class: BTreeMap<String, u64> = BTreeMap::new();
     failures.retain(|f| {
@@ -1025,7 +1178,7 @@ async fn run(seqs: usize, out: &mut impl std::io::Write) {
     let summary = json!({"kind":"summary","sequences":seqs,"evaluations":evaluations,"calls":call_hist,"results":result_hist,
         "wrappers":kind_hist,"tolerated_divergences":tolerated,"cas_ok":cas_ok,"cas_rejected":cas_rejected,
         "rewrites_after_retired_token":aba_rewrites,"span_cases":span_cases,"pre_cases":pre_cases,"nontrivial":nontrivial,
-        "two_caller_scenarios":tc_scenarios,"two_caller_schedules":tc_runs,"two_caller_exhaustive":tc_exhaustive,
+        "two_caller_scenarios":tc_scenarios,"two_caller_schedules":tc_runs,"two_caller_exhaustive":tc_exhaustive,"two_caller_context_bounded_schedules":tc_bounded,"two_caller_conditional_readers":CONDS.len(),
         "oracle_failures":oracle_failures,"failure_classes":per_class,"failures":failures});
     writeln!(out, "{summary}").unwrap();
     out.flush().unwrap();
